@@ -537,11 +537,13 @@ fn flat_size(m: &HLib, si: usize, memo: &mut Vec<Option<u64>>) -> u64 {
         return v;
     }
     let s = &m.structs[si];
+    // shapes plus placements: a placement of an empty struct costs a visit all the same (arrays of arrays of
+    // an empty struct flatten to nothing, after billions of visits)
     let mut n = s.shapes.len() as u64;
     for r in &s.refs {
         match r {
-            HRef::S { target, .. } => n = n.saturating_add(flat_size(m, *target, memo)),
-            HRef::A { target, cols, rows, .. } => n = n.saturating_add((*cols as u64 * *rows as u64).saturating_mul(flat_size(m, *target, memo))),
+            HRef::S { target, .. } => n = n.saturating_add(1u64.saturating_add(flat_size(m, *target, memo))),
+            HRef::A { target, cols, rows, .. } => n = n.saturating_add((*cols as u64 * *rows as u64).saturating_mul(1u64.saturating_add(flat_size(m, *target, memo)))),
         }
     }
     memo[si] = Some(n);
@@ -668,7 +670,7 @@ fn oracle(m: &HLib, ctx: &mut Ctx) -> Result<(), String> {
         // (3) flattened geometry under GDSII semantics
         let size = flat_size(m, si, &mut memo);
         if size > 400_000 {
-            ctx.label("flatten skipped: more than 400k shapes");
+            ctx.label("flatten skipped: more than 400k shapes and placements");
             continue;
         }
         let mut wantf: Flat = BTreeMap::new();
